@@ -27,7 +27,7 @@ REQUIRED_CLAUSES = ["geometry", "ik.lengths", "ik.invariance", "ik.published_joi
 def plan(tier, seed):
     if tier == "quick":
         return [{"n": 40, "poses": 3, "timeout_s": 1800} for _ in range(16)]
-    return [{"n": 400, "poses": 5, "timeout_s": 14400} for _ in range(16)]
+    return [{"n": 4000, "poses": 5, "timeout_s": 14400} for _ in range(16)]
 
 
 def gen_case(rng, nposes):
